@@ -356,17 +356,17 @@ class WaitIterator:
 
         if kwargs:
             self._unfinished = {f: k for (k, f) in kwargs.items()}
-            futures: Sequence[Future] = list(kwargs.values())
         else:
             self._unfinished = {f: i for (i, f) in enumerate(args)}
-            futures = args
 
         self._finished: collections.deque[Future] = collections.deque()
         self.current_index: str | int | None = None
         self.current_future: Future | None = None
         self._running_future: Future | None = None
 
-        for future in futures:
+        # Listen once per distinct future: the same future passed twice has
+        # a single entry in _unfinished and must be yielded only once.
+        for future in self._unfinished:
             future_add_done_callback(future, self._done_callback)
 
     def done(self) -> bool:
